@@ -18,7 +18,7 @@ CHECKS = {
          "None of the crafted definitions contains an entry added by somebody entitled to, so any change is a violation; honest news are pulled first. Open known findings share two causes (placing references never authorship-checked - the shipped unit test room_node::tests::invalid asserts it; a room not seen before authorises itself). With proposed_fixes/C07-reference-authorship.diff applied the known-room part of the check is clean."),
  "C08": ("serve", "exploration", "An honest server with 2-4 rooms and a requester whose membership differs per room and changes while connected, talking to the server's real connection services; every request kind before/after the identity proof and the room list, naming rooms and rows of rooms it does and does not belong to; every answer is decoded and must only carry data of rooms the requester is a member of at the server's date.",
          "Membership is read from the server's in-memory room (is_user_valid_at). The requester answers the server's own requests with errors."),
- "C09": ("repl", "exploration", "At every recomputation barrier on every node: no mark left, counts and daily hashes recomputed by independent harness code from the stored rows, the whole log (chained hash included) equal to a from-scratch rebuild by the real compute() over the same rows, equal content <=> equal logs across nodes.",
+ "C09": ("repl,rights", "exploration", "In two engines (replication histories; and the rights workload with moves between rooms, nested creations and several authors): At every recomputation barrier on every node: no mark left, counts and daily hashes recomputed by independent harness code from the stored rows, the whole log (chained hash included) equal to a from-scratch rebuild by the real compute() over the same rows, equal content <=> equal logs across nodes.",
          "The chained hash is checked metamorphically (function of content), never re-implemented. 'Different rows or deletion records => different logs' is evaluated on rows and deletion records (references are not part of the log by design)."),
  "C11": ("repl", "exploration", "After every step, on every node, no row or reference is stored at the deleted or an older version while that node holds its deletion record; after heal the row is absent and the record present everywhere.",
          "Rows updated elsewhere to a version newer than the deleted one are outside the statement. Multi-entity rooms inherit the open summary-blindness finding of C03."),
